@@ -396,6 +396,11 @@ def main(argv):
         mod.run(ctx)
         return ctx.finish()
     except Infra as e:
+        if ctx.violations:
+            # deviations already observed on the real code are not hidden by later infrastructure trouble
+            print("NOTE property=%s infrastructure trouble after violations were observed: %s" % (a.prop, str(e)[:500]), flush=True)
+            ctx.cov["aborted_by_infra"] = str(e)[:300]
+            return ctx.finish()
         print("INFRA property=%s %s" % (a.prop, e), flush=True)
         shutil.rmtree(ctx.scratch, ignore_errors=True)
         if ctx.repo != "/repo":
